@@ -616,6 +616,43 @@ def fixed_cases(thorough: bool = False):
             if not thorough and (i + len(name)) % 2:
                 continue
             out.append(plain("single", "bbb", name, mode, q))
+    # numeric options at legal negative and zero values, from the URL and from stored stream defaults, on
+    # every live template (event options also in vod)
+    neg = ["-1", "-5", "-2147483649", "0", "-0"]
+    nopts = [("depth", neg), ("mup", neg), ("leeway", neg), ("drift", ["-1", "-7", "-100", "0"]), ("update", neg),
+             ("failures", ["-1", "0"]), ("frames", ["-1", "0"])]
+    k = 0
+    for name, mft in W.manifests().items():
+        if "live" not in mft["modes"]:
+            continue
+        for opt, values in nopts:
+            for v in values:
+                k += 1
+                if thorough or k % 2 == 0:
+                    out.append(plain("single", "bbb", name, "live", [[opt, v]] + ([["depth", "20"]] if opt != "depth" else [])))
+                if thorough or k % 2 == 1:
+                    try:
+                        W.stored_defaults(f"{opt}={v}")
+                    except Exception:
+                        continue          # a value the defaults page itself refuses
+                    out.append(plain("single", "bbb", name, "live", [] if opt == "depth" else [["depth", "20"]],
+                                     stored={"defaults": f"{opt}={v}"}))
+        if (thorough or len(name) % 2) and mft["modes"] != ["live"]:
+            out.append(plain("multi", "c05mps", name, "live", [["depth", "-5"]]))
+            out.append(plain("multi", "c05mpf", name, "live", [["depth", "-1"], ["mup", "-1"]]))
+    for ev in ("ping", "scte35"):
+        for fld, values in (("start", ["-1", "-5", "0"]), ("duration", ["-1", "0"]), ("timescale", ["-1", "0"]),
+                            ("interval", ["-1", "0"]), ("count", ["-1", "0"]), ("version", ["-1", "0"])):
+            for v in values:
+                for inband in ("0", "1"):
+                    for name, mode in (("hand_made.mpd", "live"), ("hand_made.mpd", "vod"), ("manifest_n.mpd", "live"), ("manifest_n.mpd", "vod")):
+                        k += 1
+                        if not thorough and k % 3:
+                            continue
+                        q = [["events", ev], [f"{ev}__inband", inband], [f"{ev}__count", "2"], [f"{ev}__{fld}", v]]
+                        if fld == "count":
+                            q = [x for x in q if x[1] != "2"]
+                        out.append(plain("single", "bbb", name, mode, q + ([["depth", "20"]] if mode == "live" else [])))
     # clocks far from today, and the clock on a loop boundary of the media after 0 ... 10^5 loops
     far = ["0100-01-01T00:00:03.500000Z", "1479-06-30T23:59:59.750000Z", "1900-03-01T00:00:07Z", "1970-01-01T00:01:00.500000Z",
            "2036-02-07T06:28:16.250000Z", "2038-01-19T03:14:08Z", "2040-02-06T06:28:16.999999Z", "2100-03-01T00:00:00.999999Z",
